@@ -14,7 +14,8 @@ A *level* is one `quota` object: one per (quota id, group value).  Its state is 
 the per-request memo `allowedByReqID`, and the number shown by `GetCounter` (stored under
 `<key>`, overwritten with the result of every `AtomicIncWindow`, i.e. with 0 after a refusal).
 
-Time is `Nat` nanoseconds since the Unix epoch.  Cost of a request is 1 (`fixed_window` strategy).
+Time is `Nat` nanoseconds since the Unix epoch.  A request counts 1 (`fixed_window`) or the value of
+the header named by `counter_value_path` (`fixed_window_custom_counter`, `costOf`).
 Spill-over and monthly renewal are not modelled: in this tree `fixedWindow.monthlyRenewal` is never
 assigned and the spill-over counter is never written, so both branches are unreachable.
 
@@ -26,7 +27,12 @@ namespace LunarVerif.C01
 abbrev QId := Nat
 abbrev Grp := Nat   -- group value; 0 = the literal "default" (also used when the header is absent)
 abbrev Rid := Nat
-abbrev Hdrs := List (Nat × Grp)   -- header index ↦ value
+/-- The request's headers as far as quotas read them: header id ↦ numeric reading.  Id `i` is the
+    group header `x-g<i>` (reading = group value); id `costKey i` is the counter-value header `x-c<i>`
+    (reading = `parseCost` of its text).  An absent header has no entry. -/
+abbrev Hdrs := List (Nat × Nat)
+
+def costKey (i : Nat) : Nat := 1000000 + i
 
 def nsPerSec : Nat := 1000000000
 
@@ -35,6 +41,9 @@ structure QuotaCfg where
   max    : Nat
   win    : Nat          -- window length, ns
   gh     : Option Nat   -- index of the group-by header, `none` = ungrouped
+  cc     : Option Nat := none
+                        -- `fixed_window_custom_counter`: index of the header named by `counter_value_path`;
+                        -- `none` = `fixed_window` (every request counts 1)
 deriving Repr, DecidableEq
 
 /-- Quota definitions; the id of a quota is its position. -/
@@ -49,6 +58,35 @@ def groupOf (c : QuotaCfg) (h : Hdrs) : Grp :=
   match c.gh with
   | none => 0
   | some i => (h.lookup i).getD 0
+
+/-- `extractCountF`: 1 for `fixed_window`; for a custom counter the parsed header value, 0 when the
+    header is absent or its text is not a non-negative int64 (`quota.Inc`: "Failed to extract count"). -/
+def costOf (c : QuotaCfg) (h : Hdrs) : Nat :=
+  match c.cc with
+  | none => 1
+  | some i => (h.lookup (costKey i)).getD 0
+
+/-- `strconv.ParseInt(raw, 10, 64)` followed by the sign test: optional `+`/`-`, at least one digit,
+    digits only, within int64; a negative value or any parse error counts 0. -/
+def parseCost (raw : String) : Nat :=
+  let cs := raw.toList
+  let (neg, ds) := match cs with
+    | '-' :: rest => (true, rest)
+    | '+' :: rest => (false, rest)
+    | _ => (false, cs)
+  if ds.isEmpty || !ds.all Char.isDigit then 0
+  else
+    let v := ds.foldl (fun acc d => acc * 10 + (d.toNat - 48)) 0
+    if neg then 0 else if v ≤ 9223372036854775807 then v else 0
+
+/-- `AssignQuotaLimitForPercentageAllocation`: the effective limit of an `allocation_percentage` child
+    (int64 arithmetic, truncating division). -/
+def effMax (parentMax pct : Nat) : Nat := parentMax * pct / 100
+
+/-- The definition the loader builds for a percentage child: a copy of the parent's strategy (window,
+    group-by header, counter path) with the effective limit. -/
+def allocate (parentId : QId) (parent : QuotaCfg) (pct : Nat) : QuotaCfg :=
+  { parent := some parentId, max := effMax parent.max pct, win := parent.win, gh := parent.gh, cc := parent.cc }
 
 /-- The quota and its ancestors, nearest first (fuel = number of quotas). -/
 def chainFuel (cfg : Cfg) : Nat → QId → List (QId × QuotaCfg)
@@ -67,7 +105,8 @@ def chain (cfg : Cfg) (q : QId) : List (QId × QuotaCfg) := chainFuel cfg cfg.qu
 structure Lvl where
   start   : Option Nat          -- window start (seconds); `none` = key not stored yet
   counter : Nat
-  memo    : List (Rid × Bool)   -- `allowedByReqID`
+  memo    : List (Rid × Option Nat)
+      -- `allowedByReqID` with `chargedByReqID`: `some c` = entry `true`, `c` counted for it; `none` = entry `false`
   shown   : Nat                 -- what `GetCounter` reports
 deriving Repr, DecidableEq
 
@@ -82,37 +121,44 @@ def elapsed (l : Lvl) (t : Nat) : Nat :=
   | none => 0
   | some s => t - s * nsPerSec
 
-/-- `quota.Inc` (with `AtomicIncWindow` inlined), cost 1. -/
-def incLevel (mx win : Nat) (l : Lvl) (r : Rid) (t : Nat) : Lvl × IncRes :=
+/-- `quota.Inc` (with `AtomicIncWindow` inlined) for a request that counts `cost`. -/
+def incLevel (mx win : Nat) (l : Lvl) (r : Rid) (t : Nat) (cost : Nat) : Lvl × IncRes :=
   match l.memo.lookup r with
   | some _ => (l, .already)
   | none =>
     let restart := decide (win ≤ elapsed l t)          -- `currentTime.Sub(windowStart) >= windowSize`
     let base := if restart then 0 else l.counter
-    if mx < base + 1 then                                -- `currentCounter > maxAllowedInWindow`: nothing stored
-      ({ l with memo := if restart then [] else (r, false) :: l.memo, shown := 0 }, .blocked)
+    if mx < base + cost then                             -- `incrBy > max - currentCounter`: nothing stored
+      ({ l with memo := if restart then [] else (r, none) :: l.memo, shown := 0 }, .blocked)
     else
       let st := if restart then t / nsPerSec else (match l.start with | none => t / nsPerSec | some s => s)
-      ({ start := some st, counter := base + 1,
-         memo := (r, true) :: (if restart then [] else l.memo), shown := base + 1 }, .increased)
+      ({ start := some st, counter := base + cost,
+         memo := (r, some cost) :: (if restart then [] else l.memo), shown := base + cost }, .increased)
+
+/-- What is counted for `r` and still pending at this level (0 if nothing). -/
+def pendingAmt (l : Lvl) (r : Rid) : Nat :=
+  match l.memo.lookup r with
+  | some (some c) => c
+  | _ => 0
 
 /-- `quota.Allowed`: read-and-delete. -/
 def allowedLevel (l : Lvl) (r : Rid) : Lvl × Bool :=
   match l.memo.lookup r with
   | none => (l, false)
-  | some v => ({ l with memo := l.memo.filter (fun e => e.1 != r) }, v)
+  | some v => ({ l with memo := l.memo.filter (fun e => e.1 != r) }, v.isSome)
 
 /-- `quota.Dec`. -/
 def decLevel (l : Lvl) (r : Rid) : Lvl :=
   { l with memo := l.memo.filter (fun e => e.1 != r) }
 
-/-- `quota.refund`: give back the count `Inc` took for `r`, if it is still pending (memo entry `true`):
-    the entry becomes `false`, the stored counter and the shown value go down by one. -/
+/-- `quota.refund`: give back what `Inc` counted for `r`, if it is still pending (entry `true`): the
+    entry becomes `false`, the stored counter goes down by the amount counted, and so does the shown
+    value when it is large enough. -/
 def refundLevel (l : Lvl) (r : Rid) : Lvl × Bool :=
   match l.memo.lookup r with
-  | some true =>
-    ({ l with counter := l.counter - 1, memo := (r, false) :: l.memo.filter (fun e => e.1 != r),
-              shown := l.shown - 1 }, true)
+  | some (some c) =>
+    ({ l with counter := l.counter - c, memo := (r, none) :: l.memo.filter (fun e => e.1 != r),
+              shown := if c ≤ l.shown then l.shown - c else l.shown }, true)
   | _ => (l, false)
 
 /-! ### State of all levels, API calls as the code composes them -/
@@ -141,8 +187,8 @@ def incChain (st : St) : List (QId × QuotaCfg) → Rid → Nat → Hdrs → St 
   | [], _, _, _ => (st, .increased)
   | (a, c) :: rest, r, t, h =>
     let k := (a, groupOf c h)
-    let st' := st.set k (incLevel c.max c.win (st.at k) r t).1
-    match (incLevel c.max c.win (st.at k) r t).2 with
+    let st' := st.set k (incLevel c.max c.win (st.at k) r t (costOf c h)).1
+    match (incLevel c.max c.win (st.at k) r t (costOf c h)).2 with
     | .increased =>
       match (incChain st' rest r t h).2 with
       | .blocked =>
@@ -204,10 +250,10 @@ def apiFinal (cfg : Cfg) : St → List Op → St
 
 /-- Event of the level API (`quota.Inc/Allowed/Dec` on one `quota` object). -/
 inductive LEv
-  | inc (k : Key) (r : Rid) (t : Nat) (res : IncRes)
-  | allowed (k : Key) (r : Rid) (b : Bool)
+  | inc (k : Key) (r : Rid) (t : Nat) (cost : Nat) (res : IncRes)
+  | allowed (k : Key) (r : Rid) (b : Bool) (amt : Nat)    -- `amt`: what had been counted for the request
   | dec (k : Key) (r : Rid)
-  | refund (k : Key) (r : Rid) (done : Bool)
+  | refund (k : Key) (r : Rid) (done : Bool) (amt : Nat)
   | verdict (tid : Nat) (r : Rid) (q : QId) (b : Bool)
 deriving Repr, DecidableEq
 
@@ -275,23 +321,25 @@ def stepThread (cfg : Cfg) (st : St) (now : Nat) (tid : Nat) (th : Thread) : St 
   | .inc [] _ thenA => (st, afterInc cfg th.q thenA, [])
   | .inc ((a, c) :: rest) charged thenA =>
     let k := (a, groupOf c th.h)
-    (st.set k (incLevel c.max c.win (st.at k) th.r now).1,
-     incNext cfg th.q (a, c) (incLevel c.max c.win (st.at k) th.r now).2 rest charged thenA,
-     [LEv.inc k th.r now (incLevel c.max c.win (st.at k) th.r now).2])
+    (st.set k (incLevel c.max c.win (st.at k) th.r now (costOf c th.h)).1,
+     incNext cfg th.q (a, c) (incLevel c.max c.win (st.at k) th.r now (costOf c th.h)).2 rest charged thenA,
+     [LEv.inc k th.r now (costOf c th.h) (incLevel c.max c.win (st.at k) th.r now (costOf c th.h)).2])
   | .refund [] thenA => (st, afterInc cfg th.q thenA, [])
   | .refund ((a, c) :: rest) thenA =>
     let k := (a, groupOf c th.h)
     (st.set k (refundLevel (st.at k) th.r).1, refundNext cfg th.q rest thenA,
-     [LEv.refund k th.r (refundLevel (st.at k) th.r).2])
+     [LEv.refund k th.r (refundLevel (st.at k) th.r).2 (pendingAmt (st.at k) th.r)])
   | .allowed [] => (st, .done none, [])
   | .allowed ((a, c) :: rest) =>
     let k := (a, groupOf c th.h)
     let (l', b) := allowedLevel (st.at k) th.r
     if b then
       match rest with
-      | [] => (st.set k l', .done (some true), [LEv.verdict tid th.r th.q true, LEv.allowed k th.r true])
-      | _ :: _ => (st.set k l', .allowed rest, [LEv.allowed k th.r true])
-    else (st.set k l', .done (some false), [LEv.verdict tid th.r th.q false, LEv.allowed k th.r false])
+      | [] => (st.set k l', .done (some true),
+               [LEv.verdict tid th.r th.q true, LEv.allowed k th.r true (pendingAmt (st.at k) th.r)])
+      | _ :: _ => (st.set k l', .allowed rest, [LEv.allowed k th.r true (pendingAmt (st.at k) th.r)])
+    else (st.set k l', .done (some false),
+          [LEv.verdict tid th.r th.q false, LEv.allowed k th.r false (pendingAmt (st.at k) th.r)])
   | .dec [] => (st, .done none, [])
   | .dec ((a, c) :: rest) =>
     let k := (a, groupOf c th.h)
